@@ -29,7 +29,9 @@ Viol(prop, cond, what) == IF cond THEN TRUE ELSE PrintT("VIOL " \o prop \o " " \
 AuthEq(a, b) == Len(a) = Len(b) /\ \A i \in DOMAIN a : a[i].scheme = b[i].scheme /\ ToS(a[i].scopes) = ToS(b[i].scopes) /\ Len(a[i].scopes) = Len(b[i].scopes) /\ a[i].ok = b[i].ok
 
 CheckRun(ev) ==
-    LET hd  == [alts |-> ev.handler.alts, params |-> ev.handler.params, returnsValue |-> ev.handler.returnsValue]
+    LET hd  == [alts |-> ev.handler.alts, params |-> ev.handler.params, returnsValue |-> ev.handler.returnsValue, respCheck |-> ev.handler.respCheck]
+        \* the status of a served request is fixed unless the validity of the returned zero value is beyond the specification
+        statusFixed == ev.fail \/ ev.handler.respCheck # "unknown"
         exp == RunOf(hd, [toks |-> ev.toks], ev.script, [fail |-> ev.fail, sameErr |-> ev.sameErr, status |-> ev.setStatus])
         o   == ev.obs
     IN  IF ev.probe
@@ -41,7 +43,7 @@ CheckRun(ev) ==
              /\ Viol("C02", exp.outcome # "invoked" \/ o.invoked \/ o.panicked, "the annotated route did not reach its method")
              /\ Viol("C05", exp.outcome # "rejected" \/ o.panicked \/ (~o.invoked /\ o.status = 422), "a missing / non-convertible parameter was not answered 422 without invoking the method")
              /\ Viol("C05", exp.outcome # "invoked" \/ ~o.invoked \/ o.args = exp.args, "arguments received by the controller differ from the request's values")
-             /\ Viol("C05", exp.outcome # "invoked" \/ ~o.invoked \/ o.status = exp.status, "status of a served request differs from the expected one")
+             /\ Viol("C05", exp.outcome # "invoked" \/ ~o.invoked \/ ~statusFixed \/ o.status = exp.status, "status of a served request differs from the expected one")
 
 CheckCmp(ev) == Viol("C12", \A i, j \in DOMAIN ev.outcomes : ev.outcomes[i] = ev.outcomes[j], "engines disagree")
 
